@@ -140,4 +140,55 @@ theorem C01_end_step (cx : Ctx) (tc : TapCtx) (e : IEnv) (st : Spec.St) (h : Rel
   · intro hemp; simp [hce, hemp]; rfl
   · intro hne; simp [hce, hne]
 
+/-- **The checker of a session without a transaction.**  `Glue.baseCtx` (`BaseSignatureChecker` with the real hash
+    functions: no signature verifies, no lock time is satisfied) is in the configuration relation with the oracle
+    `Glue.baseOracle` that the specification side of the correspondence check uses for plain scripts — for every
+    environment with the configuration's flags, signature version and `--allow-disabled-opcodes` setting, `requireMinimal`
+    as `setup_environment` sets it, and no mock signatures. -/
+theorem cfgRel_base (e : SEE) (flags : Nat) (sv : SigVersion) (z : Bool)
+    (hf : e.flags = flags) (hsv : e.sigversion = sv) (hz : e.allowDisabled = z)
+    (hrm : e.requireMinimal = hasFlag e.flags Flag.MINIMALDATA) (hpk : e.pretendKeys = []) :
+    CfgRel Glue.baseCtx e { flags := flags, sigversion := sv, allowDisabled := z, oracle := Glue.baseOracle, pretend := [] } where
+  flags := hf.symm
+  sv := hsv.symm
+  z := hz.symm
+  rm := hrm
+  sha256 := rfl
+  ripemd160 := rfl
+  sha1 := rfl
+  checkLowS := rfl
+  checkLockTime := rfl
+  checkSequence := rfl
+  ecdsa := rfl
+  schnorr := fun _ _ _ _ => ⟨rfl, rfl⟩
+  pretendKeys := fun key => by rw [hpk]; rfl
+  pretendPair := fun sig key hk => by rw [hpk] at hk; cases hk
+
+/-- `C01_trace` for the sessions the check of C01 runs (plain scripts, no transaction, no mock signatures): the
+    hypothesis `CfgRel` is discharged by `cfgRel_base` -/
+theorem C01_trace_base (tc : TapCtx) (stack : List Bytes) (script : Bytes) (flags : Nat) (sv : SigVersion) (z : Bool)
+    (ed : ExecData) (e0 : IEnv)
+    (hsetup : setupEnvironment stack script flags sv [] z ed none [] [] = .ok e0)
+    (hw : sv = .TAPSCRIPT → ed.weightInit = true) :
+    RelRun (runOps Glue.baseCtx tc script.length e0)
+      (Spec.evalInstrs { flags := flags, sigversion := sv, allowDisabled := z, oracle := Glue.baseOracle, pretend := [] }
+        (Spec.decodePrefix script.length script).1 0 (initSt stack script ed))
+      (Spec.decodePrefix script.length script).2 := by
+  refine C01_trace Glue.baseCtx tc _ stack script flags sv z ed [] e0 hsetup ?_ hw
+  have hsee : e0.see.flags = flags ∧ e0.see.sigversion = sv ∧ e0.see.allowDisabled = z ∧
+      e0.see.requireMinimal = hasFlag e0.see.flags Flag.MINIMALDATA ∧ e0.see.pretendKeys = [] := by
+    unfold setupEnvironment IEnv.init at hsetup
+    split at hsetup
+    · cases hsetup
+    · rename_i e hinit
+      split at hinit
+      · cases hinit
+      · cases hinit
+        simp only [List.isEmpty_nil, Bool.not_true, Bool.false_and, Bool.false_eq_true, if_false] at hsetup
+        split at hsetup
+        · cases hsetup
+        · cases hsetup
+          exact ⟨rfl, rfl, rfl, rfl, rfl⟩
+  exact cfgRel_base e0.see flags sv z hsee.1 hsee.2.1 hsee.2.2.1 hsee.2.2.2.1 hsee.2.2.2.2
+
 end Btcdeb.Proofs.C01
